@@ -379,6 +379,78 @@ def mask_forms(P, R, fns, rule='C13.TAB.5'):
             R.ob(rule, not lost, lost[0] if lost else sites[0], 'in %s the digits accumulated in %s are stored into the address before %s is re-used' % (f.name, acc, acc), key='pending:%s' % f.name)
     return n
 
+def prefix_reported(P, R, fns, rule='C13.INIT.2'):
+    """Whenever the parser has stored address bits and returns success, it has also reported a prefix length (if the
+    caller asked for one): on every path to a non-zero return on which a group, a dotted quad or a wildcard was
+    consumed, a store through the optional prefix-length parameter has happened - directly or in the dotted-quad
+    helper, which is summarised by the same analysis.  A plain address without `/n` must come out as /128 (or /32),
+    not with the caller's stale value."""
+    from ..model import rel as _rel
+    keys = {f.key: f for f in fns}
+    summary = {}
+    full = {}
+
+    def analyse(f, depth=0):
+        if f.key in summary:
+            return summary[f.key]
+        summary[f.key] = None
+        full[f.key] = None
+        outs = [p['name'] for p in f.param_info if p.get('t', '').replace(' ', '') in ('unsignedint*', 'unsigned*')]
+        nulltested = set()
+        for b in f.blocks:
+            c = f.term_cond(b)
+            r = _rel(c, True) if c is not None else None
+            if r and is_var(r[0]) and r[0]['name'] in outs and const_of(r[2]) == 0:
+                nulltested.add(r[0]['name'])
+        pfx = [p for p in outs if p in nulltested]
+        if not pfx:
+            return None
+        bp = pfx[0]
+
+        def on_event(st, t):
+            parsed, written = st
+            ev = t.ev
+            l = ev.get('lhs') or {}
+            if ev['k'] == 'store' and l.get('k') == 'un' and l.get('op') == '*' and is_var(l.get('e'), bp):
+                written = True
+            if ev['k'] == 'store' and (l.get('k') == 'idx' and any(x.get('k') == 'mem' and x.get('field', '').startswith('in6') for x in walk(l))):
+                parsed = True
+            if ev['k'] == 'store' and l.get('k') == 'un' and l.get('op') == '*' and is_var(l.get('e')) and l['e']['name'] != bp and l['e'].get('sc') == 'param':
+                parsed = True           # the helper's own output
+            calls = [ev] if ev['k'] == 'call' else [x for ex in _event_exprs(ev) for x in walk(ex) if x.get('k') == 'callref']
+            for c in calls:
+                g = P.direct_target(f, c.get('callee')) if c.get('callee') else None
+                if g is not None and g.key in keys and g.key != f.key and depth < 2:
+                    sub = analyse(g, depth + 1)
+                    if any(is_var(a, bp) for a in c.get('args', [])) and sub:
+                        written = True
+                    parsed = True
+            return (parsed, written)
+
+        def on_edge(st, e):
+            r = e.rel()
+            if r and is_var(r[0], bp) and const_of(r[2]) == 0 and r[1] == '==':
+                return (st[0], True)        # the caller did not ask for it
+            return st
+        before, _, _, _ = f.forward((False, False), on_event, on_edge)
+        bad = []
+        for t in f.sites():
+            if t.ev['k'] == 'ret' and t.ev.get('val') is not None and const_of(t.ev['val']) != 0:
+                if any(p and not w for p, w in before.get(t.key, set())):
+                    bad.append(t)
+        summary[f.key] = not bad
+        full[f.key] = (f, bp, bad)
+        return summary[f.key]
+    n = 0
+    for f in fns:
+        analyse(f)
+        res = full.get(f.key)
+        if isinstance(res, tuple):
+            f2, bp, bad = res
+            n += 1
+            R.ob(rule, not bad, bad[0] if bad else f2, 'in %s every successful return that stored address bits has reported a prefix length through %s' % (f2.name, bp), key='prefix-reported:%s' % f2.name)
+    return n
+
 def optional_outputs(P, R, fns, rule='C13.NULL.1'):
     """A pointer parameter that the function itself compares with NULL somewhere is optional (the daemon passes NULL for
     the prefix-length output when it parses a client's address): every dereference of it, here or in a helper it is
@@ -593,6 +665,8 @@ def run(P, R, tier):
     helper_cursor(P, R, fns)
     helper_outputs(P, R, fns)
     optional_outputs(P, R, fns)
+    prefix_reported(P, R, fns)
+    R.floor('C13.INIT.2', 2, 'parser and dotted-quad helper')
     mask_forms(P, R, fns)
     from .. import rules as _rules
     _rules.no_static_locals(P, R, 'C13.WMC.1', fns, 'address code')
